@@ -3,16 +3,19 @@
 # comparison with the extracted model, classification of the known findings F16*.
 import hashlib
 import itertools
+import sys
 from decimal import Decimal
 from fractions import Fraction
 from tools.lib import Case, f2hex, hex2f, cps
 
 ID = 'C19'
+sys.setrecursionlimit(20000)
 RULE = ('(1) EXHAUSTIVE sequences over the 15 token kinds {2, 0, 1, x, y, pi, sin, + - * / ^ ! ( )}: every sequence up to '
         'length 4 (thorough: 5; 54 241 / 813 616 sequences) rendered to text and lexed by the real lexer, and also handed '
         'to the parser hook as a token vector where the text lexes to other tokens (adjacent digits or letters merge); '
-        'thorough: every sequence of length 6 that has a conventional reading (596 784); beyond that random samples of '
-        'readable and of arbitrary sequences up to length 7 (all 11.4 M / 171 M sequences are too many to run); '
+        'beyond that every sequence that has a conventional reading (reference reader; juxtaposition of any two operands '
+        'counts) of length 5 (56 820; thorough: length 6, 596 784), then random samples of readable and of arbitrary '
+        'sequences up to length 7 (all 11.4 M / 171 M sequences are too many to run); '
         '(2) random expression trees of depth <= 6 over + - * / ^ % unary minus, !, six functions, four constants, '
         'juxtaposition, rendered with minimal and with redundant parentheses; (3) arbitrary strings up to 200 characters '
         '(ASCII, keywords, non-ASCII) and mutations of valid text, for totality; (4) arbitrary trees (all operator tags, '
@@ -20,7 +23,9 @@ RULE = ('(1) EXHAUSTIVE sequences over the 15 token kinds {2, 0, 1, x, y, pi, si
         'fractions (2, 0.5, 3.25 ...) whose `{}` output is their exact decimal expansion (<= 15 significant digits); '
         'where arbitrary text contains another number the Display text is excluded from the comparison.  Every case that '
         'has a reading is run twice: once judged by the oracle, once (prefix c) compared with the model only, so that the '
-        'model is compared on known-finding inputs too.  distinct = distinct line; non-trivial = the parser returned a tree')
+        'model is compared on known-finding inputs too; on those copies the extracted Coq reference reader '
+        '(Model/RefExpr.v, the one the theorems speak about) must return exactly the tree of the oracle\'s own reader.  '
+        'distinct = distinct line; non-trivial = the parser returned a tree')
 TRUSTED = ['extraction of the float instance (ExtrOcamlBasic, ExtrOCamlFloats, ExtrOCamlInt63) and ocaml/c19.ml',
            'Rust harness harness/src/bin/c19.rs through the cfg(spindalis_verif) hook of advanced.rs',
            'reference reader and exact-rational evaluator of tools/props/c19.py (functions, constants and non-integral '
@@ -801,6 +806,15 @@ def strip_display(line):
 
 
 def compare(case, impl, model):
+    # the model line ends with the reading of the extracted Coq reference reader (Model/RefExpr.v): it must be the
+    # reading of the oracle's own reader, structurally
+    if ' ; ref ' in model:
+        model, ref = model.rsplit(' ; ref ', 1)
+        d = parse_result(impl)
+        if 'tokens' in d:
+            mine = ref_read(d['tokens'])
+            if len(d['tokens']) <= 400 and ('none' if mine is None else expr_wire(mine)) != ref:
+                return False
     if impl == model:
         return True
     if impl.startswith('lex ok') or impl.startswith('tree'):
@@ -918,14 +932,14 @@ def random_readable(rng, n):
 
 def gen_exhaustive(rng, tier):
     full = 4 if tier == 'quick' else 5          # every sequence
-    readable = 4 if tier == 'quick' else 6      # every sequence that has a conventional reading
+    readable = 5 if tier == 'quick' else 6      # every sequence that has a conventional reading
     for n in range(0, full + 1):
         for seq in itertools.product(KINDS, repeat=n):
             yield from emit_tokens(seq, 'exh%d' % n)
     for n in range(full + 1, readable + 1):
         for seq in readable_sequences(n):
             yield from emit_tokens(seq, 'exh%d-readable' % n)
-    for n, k in ((5, 6000), (6, 5000), (7, 4000)) if tier == 'quick' else ((6, 30000), (7, 150000)):
+    for n, k in ((6, 6000), (7, 5000)) if tier == 'quick' else ((7, 150000),):
         for _ in range(k):
             yield from emit_tokens(random_readable(rng, n), 'exh%d-readable-sample' % n)
         for _ in range(k // 4):
